@@ -34,7 +34,8 @@ PROBES = {
              "count_exceeds_sizer_type"],
     "order": ["definition_with_3plus_dependencies", "patched_dependency_edge"],
     "fs": ["include_diamond", "include_through_second_spelling", "decoy_later_in_search_order", "compiled_from_other_cwd",
-           "include_with_subdirectory_found_through_-I", "one_invocation_per_file", "empty_header_included_twice"],
+           "include_with_subdirectory_found_through_-I", "one_invocation_per_file", "empty_header_included_twice",
+           "include_named_like_a_definition"],
     "linkcpp": ["limited_array_over_limit", "optional_of_struct_holding_vector"],
 }
 
